@@ -106,10 +106,15 @@ type gen struct {
 	globalsSeen map[int]bool
 	boxed map[int]*Val
 	loopEntryVals map[string]*Val
+	varAll map[string]map[ssa.Value]bool
+	guardArgs []*Val
+	univDone map[string]bool
+	preConj map[int]bool
 	unsupported int
 }
 
 type retPoint struct {
+	blk     *ssa.BasicBlock
 	vars    map[string]ssa.Value
 	st      *State
 	results []*Val
